@@ -65,10 +65,8 @@ End AL.
 (* ------------------------------------------------------------------ the mapping classes *)
 Inductive cls := ClsPlain | ClsOrdered | ClsDefault.
 
-(* self.default_factory: absent (plain / ordered), a callable returning d, or -- after
-   CaseInsensitiveDefaultDict.lower(), utils.py:181 `type(self)(self.items_lower())` -- a generator
-   object, which is not callable *)
-Inductive factory := FacNone | FacVal (d : V) | FacBroken.
+(* self.default_factory: absent (plain / ordered) or a callable returning d *)
+Inductive factory := FacNone | FacVal (d : V).
 
 Record cid := mkcid {
   c_cls : cls;
@@ -80,15 +78,17 @@ Record cid := mkcid {
 Definition upd (c : cid) (d : list (K * V)) (ks : list (K * K)) : cid :=
   mkcid (c_cls c) d ks (c_fac c).
 
+(* __setitem__ utils.py:153-157 *)
+Definition ci_setitem (c : cid) (k : K) (v : V) : cid :=
+  let kl := lower k in upd c (al_set kl v (c_dict c)) (al_set kl k (c_keys c)).
+(* MutableMapping.update(other) with an iterable of pairs (or a mapping, which is iterated the same way):
+   for key, value in other: self[key] = value *)
+Definition ci_update (c : cid) (kvs : list (K * V)) : cid :=
+  fold_left (fun acc p => ci_setitem acc (fst p) (snd p)) kvs c.
 (* CaseInsensitiveDict.__init__ utils.py:142-145 / OrderedCaseInsensitiveDict.__init__ utils.py:282-285:
-     initial = dict(args)            -- case-SENSITIVE de-duplication first
-     self._dict = dict((key.lower(), value) for key, value in initial.items())
-     self._keys = dict((key.lower(), key) for key in initial) *)
+     self._dict = {}; self._keys = {} (OrderedDict()); self.update(args)  -- the pairs are inserted in order *)
 Definition ci_init (c : cls) (pairs : list (K * V)) : cid :=
-  let initial := py_dict pairs in
-  mkcid c (py_dict (map (fun p => (lower (fst p), snd p)) initial))
-          (py_dict (map (fun p => (lower (fst p), fst p)) initial))
-          FacNone.
+  ci_update (mkcid c [] [] FacNone) pairs.
 (* CaseInsensitiveDefaultDict.__init__ utils.py:202-204 *)
 Definition default_init (f : factory) : cid := mkcid ClsDefault [] [] f.
 
@@ -96,9 +96,6 @@ Definition default_init (f : factory) : cid := mkcid ClsDefault [] [] f.
 Definition ci_len (c : cid) : nat := length (c_dict c).
 (* __iter__ utils.py:150 : iter(self._keys.values()) *)
 Definition ci_iter (c : cid) : list K := map snd (c_keys c).
-(* __setitem__ utils.py:153-157 *)
-Definition ci_setitem (c : cid) (k : K) (v : V) : cid :=
-  let kl := lower k in upd c (al_set kl v (c_dict c)) (al_set kl k (c_keys c)).
 (* CaseInsensitiveDict.__getitem__ utils.py:159-160 *)
 Definition base_getitem (c : cid) (k : K) : eres V :=
   match al_get (lower k) (c_dict c) with Some v => EOk v | None => EExn KeyError end.
@@ -110,7 +107,7 @@ Definition ci_getitem (c : cid) (k : K) : eres V :=
     | EExn KeyError =>
       match c_fac c with
       | FacVal d => EOk d
-      | _ => EExn TypeError      (* calling a generator object / a missing attribute *)
+      | FacNone => EExn TypeError      (* no default_factory: unreachable through the constructors *)
       end
     | r => r
     end
@@ -152,12 +149,12 @@ Definition ci_repr_data (c : cid) : eres (list (K * V)) :=
 (* items_lower utils.py:177-178 *)
 Definition ci_items_lower (c : cid) : eres (list (K * V)) :=
   ebind (ci_items c) (fun l => EOk (map (fun p => (lower (fst p), snd p)) l)).
-(* lower utils.py:180-181: type(self)(self.items_lower()).
-   For CaseInsensitiveDefaultDict, type(self)(x) is __init__(default_factory=x): the result is EMPTY and
-   its default_factory is the (never consumed) generator. *)
+(* CaseInsensitiveDict.lower utils.py:180-181: type(self)(self.items_lower())
+   CaseInsensitiveDefaultDict.lower utils.py:218-221: result = type(self)(self.default_factory);
+     result.update(self.items_lower()); return result *)
 Definition ci_lower (c : cid) : eres cid :=
   match c_cls c with
-  | ClsDefault => EOk (default_init FacBroken)
+  | ClsDefault => ebind (ci_items_lower c) (fun l => EOk (ci_update (default_init (c_fac c)) l))
   | k => ebind (ci_items_lower c) (fun l => EOk (ci_init k l))
   end.
 
@@ -173,7 +170,7 @@ Definition ci_get (c : cid) (k : K) (d : option V) : eres (option V) :=
      try: value = self[key]
      except KeyError: if default is marker: raise; return default
      else: del self[key]; return value *)
-Definition ci_pop (c : cid) (k : K) (d : option V) : cid * eres V :=
+Definition base_pop (c : cid) (k : K) (d : option V) : cid * eres V :=
   match ci_getitem c k with
   | EOk v =>
     match ci_delitem c k with
@@ -182,6 +179,18 @@ Definition ci_pop (c : cid) (k : K) (d : option V) : cid * eres V :=
     end
   | EExn KeyError => (c, match d with Some dv => EOk dv | None => EExn KeyError end)
   | EExn e => (c, EExn e)
+  end.
+(* CaseInsensitiveDefaultDict.pop utils.py:213-216:
+     if default and key not in self: return default[0]
+     return super().pop(key)          -- WITHOUT the default *)
+Definition ci_pop (c : cid) (k : K) (d : option V) : cid * eres V :=
+  match c_cls c with
+  | ClsDefault =>
+    match d with
+    | Some dv => if ci_contains c k then base_pop c k None else (c, EOk dv)
+    | None => base_pop c k None
+    end
+  | _ => base_pop c k d
   end.
 (* MutableMapping.popitem: key = next(iter(self)) (StopIteration -> KeyError); value = self[key]; del self[key] *)
 Definition ci_popitem (c : cid) : cid * eres (K * V) :=
@@ -210,16 +219,21 @@ Fixpoint clear_loop (fuel : nat) (c : cid) : cid * eres unit :=
     end
   end.
 Definition ci_clear (c : cid) : cid * eres unit := clear_loop (S (length (c_keys c))) c.
-(* MutableMapping.update(other) with an iterable of pairs (or a mapping, which is iterated the same way):
-   for key, value in other: self[key] = value *)
-Definition ci_update (c : cid) (kvs : list (K * V)) : cid :=
-  fold_left (fun acc p => ci_setitem acc (fst p) (snd p)) kvs c.
 (* MutableMapping.setdefault: try: return self[key] except KeyError: self[key] = default; return default *)
-Definition ci_setdefault (c : cid) (k : K) (d : V) : cid * eres V :=
+Definition base_setdefault (c : cid) (k : K) (d : V) : cid * eres V :=
   match ci_getitem c k with
   | EOk v => (c, EOk v)
   | EExn KeyError => (ci_setitem c k d, EOk d)
   | EExn e => (c, EExn e)
+  end.
+(* CaseInsensitiveDefaultDict.setdefault utils.py:218-221:
+     if key not in self: self[key] = default
+     return self[key] *)
+Definition ci_setdefault (c : cid) (k : K) (d : V) : cid * eres V :=
+  match c_cls c with
+  | ClsDefault =>
+    let c' := if ci_contains c k then c else ci_setitem c k d in (c', ci_getitem c' k)
+  | _ => base_setdefault c k d
   end.
 
 (* ---- operations of a history, their results, one step *)
@@ -423,4 +437,3 @@ Arguments SRBool {K} b.
 Arguments SRKey {K} k.
 Arguments FacNone {V}.
 Arguments FacVal {V} d.
-Arguments FacBroken {V}.
